@@ -497,7 +497,7 @@ static void inject_roundtrip(Rng &r, const std::string &tid, const std::string &
   Rec rec              = recognise(true, injected);
   if (rec.verdict == kReject)
     return;  // already reported above as inject-form; extracting it proves nothing
-  Caller caller = make_caller(r);
+  Caller caller = make_caller(r, -1, &sc);
   context_api::Context out = extract_stable(prop(), c, caller, "roundtrip", witness);
   c.kill(r.coin());
   Outcome o = judge_returned(caller, out, "roundtrip", witness);
